@@ -70,8 +70,9 @@ private theorem goCopy_tail (a b c : Bytes) (k : Nat) (hk : a.length = k) (hc : 
 theorem genFrame_eq (cfg : Writer.Cfg) (codec : Codec) (cps : Win) (opcode : UInt8) (payload : List Bytes)
     (fc : Writer.FrameCfg) (maskNum : UInt32) (hlen : payload.flatten.length < 2 ^ 62) :
     interpW cfg codec cps payload (goBytesU32LE maskNum)
-      (Trans.Conn_genFrame GenOut.ret GenOut.compress opcode payload.flatten fc.checkEncoding (cfg.writeMax : Int) fc.compress
-        (cfg.threshold : Int) fc.fin fc.broadcast cfg.isServer maskNum)
+      (Trans.Conn_genFrame GenOut.ret GenOut.compress opcode payload.flatten (cfg_checkEncoding := fc.checkEncoding)
+        (c_config_WriteMaxPayloadSize := (cfg.writeMax : Int)) (cfg_compress := fc.compress) (c_pd_Threshold := (cfg.threshold : Int))
+        (cfg_fin := fc.fin) (cfg_broadcast := fc.broadcast) (c_isServer := cfg.isServer) (maskNum := maskNum))
       = Writer.genFrame cfg codec cps opcode.toNat payload fc (goBytesU32LE maskNum) := by
   have hce : Trans.internal_CheckEncoding fc.checkEncoding opcode payload.flatten
       = Utf8.buffersCheck fc.checkEncoding opcode.toNat payload := by
